@@ -11,11 +11,13 @@ CHECKS = {
         "read-only-never-mutates) is model-checked exhaustively by TLC; every transition of the closed state graph "
         "(2-3 affix-related ids x 2 payloads x 3 modes, all histories) is replayed on real DataStoreDirectory and "
         "DataStoreSqlite objects and the observed store (live API and freshly re-opened) must equal a spec successor; "
-        "recorded executions of random drivers and of the repository's data-store tests are validated by Trace_DataStore.tla.",
+        "recorded executions of random drivers and of the repository's data-store tests are validated by Trace_DataStore.tla. "
+        "SqliteLock.tla models the sqlite store's lock over two processes (lazy connection, overwrite refused on a locked file, append re-locks, "
+        "unlock/force, close keeps the lock, a refused object used again) and is replayed with simulated pids; describe/validate are derived views of the state.",
         design_ref="DESIGN.md section 2 / C13",
         note="Trusted: TLC, the projection in harness/check_C13.py (reads through the public API only), md5 via hashlib. "
         "Identifiers without embedded dots / suffix substrings; logs checked for presence and last content only; "
-        "ReadOnlyDataStoreZipped not covered.",
+        "ReadOnlyDataStoreZipped only as a read-only view of a zipped directory store. Processes are simulated by patching os.getpid.",
         technique="TLA+ model (TLC exhaustive) + spec->code transition replay + code->spec trace validation",
     ),
     "C07": dict(
@@ -26,7 +28,9 @@ CHECKS = {
         "every transition is replayed on a real Calculator comparing both buffers, array identities, _switch, last_values, "
         "last_undo, spare.  ParamScope.tla models the scope partition / motif probs / alignment / updates_postponed (incl. "
         "exception exit) / optimiser round trips; its transitions are replayed on real likelihood functions and after each "
-        "step lnL, nfp, per-edge values and exported rules are compared with a function newly built from the spec state.",
+        "step lnL, nfp, per-edge values and exported rules are compared with a function newly built from the spec state, on three kinds of function "
+        "(plain, two rate classes, two classes along a site-HMM).  Calculators of real optimiser runs (incl. site-HMM and two-locus functions) are "
+        "validated against Recalc.tla by Trace_Recalc.tla with the DAG taken from the real calculator.",
         design_ref="DESIGN.md section 2 / C07",
         note="Trusted: TLC, harness projections. Provenance abstraction: numeric correctness of individual calc functions is "
         "not part of C07. One scoped parameter (kappa, HKY85) on a 3-edge tree in layer 2; layer-2 replay is budget-sampled "
@@ -40,7 +44,10 @@ CHECKS = {
         "non-negative off-diagonals, unit expected rate, stationarity and detailed balance on every instance (prime-coded "
         "parameters) and every cell of Q is compared with the real likelihood function's rate matrix. MarkovP.tla gives the exact "
         "rational P(t) of the TN93 family; TLC proves row-stochasticity, P(0)=I, Chapman-Kolmogorov and detailed balance, and the real "
-        "psubs are compared with it under every expm back-end and Exponentiator class.",
+        "psubs are compared with it under every expm back-end and Exponentiator class. Instances also cover a second genetic code (state space and "
+        "synonymous partition), dinucleotide and position-specific codon models, user-built predicate algebra, the admission rule of the "
+        "time-reversible classes (Refuse action: mirrored directed terms must be refused) and a general model at a non-diagonalisable point, "
+        "where every expm back-end is compared with exp(Qt) of the spec's exact Q.",
         design_ref="DESIGN.md section 2 / C05",
         note="Trusted: TLC, Fraction->float conversion, ln(q) for branch lengths. exp(Qt) of models without a rational closed form "
         "(GTR, GN, ssGN, codon, protein) is NOT decided by the spec: the obligations are evaluated relationally in floating point in "
@@ -54,7 +61,10 @@ CHECKS = {
         "that the likelihoods of all canonical columns sum to one, and that rate classes are the bprob-weighted mixture. Each "
         "configuration (2-4 tips; star, rooted, root trifurcation; per-edge lengths and kappa scopes; ambiguity-coded columns over "
         "T,C,A,G,R,Y,N; equal and unequal rate classes) is instantiated as a real likelihood function and every per-column likelihood "
-        "and lnL is compared with the exact value (rtol 1e-10).",
+        "and lnL is compared with the exact value (rtol 1e-10). The spec also covers the site-HMM over classes (forward recursion = sum over patch "
+        "paths, stochastic patch chain, switch 0/1 limits, total probability one; ordered alignments compared exactly) and several loci sharing a "
+        "tree; for every MarkovQ instance (codon under two genetic codes, dinucleotide, user-built, GN) per-column likelihoods are compared with a "
+        "pruning over exp(Qt) of the spec's exact Q.",
         design_ref="DESIGN.md section 2 / C02",
         note="Trusted: TLC, Fraction->float, ln for branch lengths and lnL. Exact oracle only for the Tamura-Nei family on <= 4 tips. "
         "For GTR/GN/codon/protein/dinucleotide models the independent number is not available: their Q is decided by C05, the pruning "
@@ -68,7 +78,10 @@ CHECKS = {
         "likelihood unchanged; column/sequence/child order and column repetition are invariances by construction of the model. "
         "The emitted root moves and edge splits are applied to the real functions of the exact configurations (lnL must equal the "
         "exact value before and after) and the full transformation list is applied relationally to real problems of every model "
-        "class (nucleotide incl. non-reversible GN/ssGN, codon MG94HKY/GY94/CNFGTR, protein JTT92) with seeded alignments and parameters.",
+        "class (nucleotide incl. non-reversible GN/ssGN, codon MG94HKY/GY94/CNFGTR, protein JTT92) with seeded alignments and parameters. "
+        "Root moves also run on trees with per-edge parameter scopes (the spec's Reroot moves each edge's instance with the edge; the real "
+        "annotated tree carries the parameters), the root is moved onto edges, splits include pieces of 1e-9/1e-12, and (tip, tip | outgroup) "
+        "parameter scopes are defined root-free in the spec, proved invariant under Reroot and replayed on every rooting of real trees.",
         design_ref="DESIGN.md section 2 / C11",
         note="Trusted: TLC, cogent3's own tree re-rooting (rooted_at / rooted_with_tip, decided by C09) to produce the transformed "
         "problems. For models without an exact oracle the check is relational in floating point (rtol 1e-9): the spec dictates which "
@@ -83,7 +96,9 @@ CHECKS = {
         "partitions of 3 edges x refinements). Each case is replayed with initialise_from_nested on real functions: projected values, "
         "per-edge rate matrices and lnL must equal the nested function's before any optimisation. Recorded optimiser runs (every "
         "calculator evaluation, in-bounds flag, start/final lnL; local, global, both; with and without evaluation limits) are "
-        "validated by Trace_Optimiser.tla against NeverLoses / WithinBounds; hypothesis apps must give LR >= 0.",
+        "validated by Trace_Optimiser.tla against NeverLoses / WithinBounds (evaluations the calculator refuses are RejectedT steps; a run that "
+        "ends by raising is not a behaviour); GeneralStationary initialised from a fitted GTR under several evaluation limits; nested terms "
+        "held constant are projected like estimates; hypothesis apps must give LR >= 0.",
         design_ref="DESIGN.md section 2 / C16",
         note="Trusted: TLC, harness wrappers around Calculator.testoptparvector and ParameterController.optimise (harness side, "
         "no source change). Whether the optimiser finds the optimum is not checked. Small 3-taxon problems.",
@@ -96,8 +111,10 @@ CHECKS = {
         "well formed (rows degap to the consumed parts, equal length, no all-gap column). For seeded scoring systems the harness scores "
         "every path and requires of global_pairwise/local_pairwise: returned rows are one of the spec's paths, reported score = that "
         "path's score, no path scores higher, and forced Hirschberg agrees with full DP. RefMerge.tla enumerates sets of pairwise gap "
-        "layouts against a reference; real pairwise_to_multiple outputs are validated against RefMerge!Valid by TLC. Progressive / "
-        "align_to_ref outputs are validated structurally.",
+        "layouts against a reference; real pairwise_to_multiple outputs are validated against RefMerge!Valid by TLC. AlignCalls.tla models "
+        "histories of alignment calls on ONE score-table object that is edited in place between calls, with gap penalties incl. zero, through the "
+        "functions and the smith_waterman / align_to_ref apps: every call must be optimal for the model as it is at that time. Progressive "
+        "outputs are validated structurally.",
         design_ref="DESIGN.md section 2 / C18",
         note="Trusted: TLC; path scores (ln, dot product, max) are float work in the harness over TLC's complete path set; transition "
         "matrix and start probabilities come from cogent3's own classic_gap_scores (the aligner's own model). Sequences of length <= 3 "
@@ -161,9 +178,10 @@ CHECKS = {
         category="model_checking",
         text="Serialise.tla states that a round trip (rich dict -> JSON -> deserialise_object, or pickle) is a stuttering step of every "
         "object's state machine; TLC enumerates every behaviour (operation histories up to the depth bound with a round trip inserted "
-        "anywhere) for 21 kinds: old/new sequences with annotations and offsets, alignments (both classes), collections (old/new), "
-        "trees, tables, distance matrices and dict arrays, indel and feature maps, annotation dbs, likelihood functions (re-scoped, "
-        "optimised), substitution models, moltype, alphabet, NotCompleted, model_result, generic_result. Each behaviour is replayed on a "
+        "anywhere) for 26 kinds: old/new sequences with annotations and offsets, alignments (both classes), collections (old/new), "
+        "trees, tables, distance matrices (incl. made asymmetric by in-place cell edits) and dict arrays, indel and feature maps, Aligned, "
+        "annotation dbs, likelihood functions (re-scoped, optimised; several loci; free / gamma rate classes; site-HMM), substitution models, "
+        "moltype, alphabet, NotCompleted, model_result, generic_result. Each behaviour is replayed on a "
         "real object and the copy's observable projection is compared, after the round trip and after every later operation, with a "
         "reference object that was never serialised.",
         design_ref="DESIGN.md section 2 / C10",
